@@ -448,13 +448,7 @@ func c04r4a(c *Ctx) {
 				}
 				typeArg, fnArg = args[1], args[2]
 			}
-			mk, ok := fnArg.(*ssa.MakeClosure)
-			var lit *ssa.Function
-			if ok {
-				lit, _ = mk.Fn.(*ssa.Function)
-			} else if f, ok := fnArg.(*ssa.Function); ok {
-				lit = f
-			}
+			lit := litOfFuncValue(fnArg)
 			if lit == nil {
 				if fn.Name() == "UpdateWatchedResource" {
 					return // delegation wrapper passing its own parameter through
@@ -711,7 +705,7 @@ func alwaysRespondForces(c *Ctx) {
 				if !ok {
 					return
 				}
-				if f := fieldOfLoad(st.Val); f != ar {
+				if f := fieldOfLoad(st.Val); f != ar && !helperReturnsField(st.Val, lit, ar) {
 					return
 				}
 				for k, x := range lit.FreeVars {
@@ -971,4 +965,69 @@ func c04r6(c *Ctx) {
 			spec.fn+" can return before the request was classified on a path that is not decided by the request's type URL alone: the request is never applied to the recorded subscription (e.g. an unsubscribe is lost: the dropped names keep being pushed and a later re-subscription is treated as already known and not answered)")
 	}
 	c.Floor(4)
+}
+
+
+// litOfFuncValue resolves a function-typed argument to the function body it denotes: a literal, a named function, or
+// the literal that a same-module factory returns on every path (`recordNackError(msg)`).
+func litOfFuncValue(v ssa.Value) *ssa.Function {
+	switch x := v.(type) {
+	case *ssa.MakeClosure:
+		f, _ := x.Fn.(*ssa.Function)
+		return f
+	case *ssa.Function:
+		return x
+	case *ssa.Call:
+		sc := x.Call.StaticCallee()
+		if sc == nil || !isIstioFunc(sc) || len(sc.Blocks) == 0 {
+			return nil
+		}
+		var lit *ssa.Function
+		for _, b := range sc.Blocks {
+			r, ok := b.Instrs[len(b.Instrs)-1].(*ssa.Return)
+			if !ok || len(r.Results) != 1 {
+				continue
+			}
+			l := litOfFuncValue(retVal(r, 0))
+			if l == nil || (lit != nil && lit != l) {
+				return nil
+			}
+			lit = l
+		}
+		return lit
+	}
+	return nil
+}
+
+// helperReturnsField: v is (a result of) a call to a same-package helper whose corresponding result is a load of field f.
+func helperReturnsField(v ssa.Value, from *ssa.Function, f *types.Var) bool {
+	var call *ssa.Call
+	idx := 0
+	switch x := v.(type) {
+	case *ssa.Call:
+		call = x
+	case *ssa.Extract:
+		if cc, ok := x.Tuple.(*ssa.Call); ok {
+			call, idx = cc, x.Index
+		}
+	}
+	if call == nil {
+		return false
+	}
+	sc := call.Call.StaticCallee()
+	if sc == nil || len(sc.Blocks) == 0 || funcPkgPath(sc) != funcPkgPath(from) {
+		return false
+	}
+	n := 0
+	for _, b := range sc.Blocks {
+		r, ok := b.Instrs[len(b.Instrs)-1].(*ssa.Return)
+		if !ok || idx >= len(r.Results) {
+			continue
+		}
+		n++
+		if fieldOfLoad(retVal(r, idx)) != f {
+			return false
+		}
+	}
+	return n > 0
 }
